@@ -144,3 +144,29 @@ def dgrams(s):
         out.append(b[i + 4:i + 4 + n])
         i += 4 + n
     return out
+
+
+def write_syms(v, exe, path):
+    """List the writable data symbols (incl. function-local statics) of snoopy's own objects as
+    'addr size name' lines for the harness `syms` command.  Requires a non-randomised run."""
+    names = set()
+    r = sh(['nm', '-S', '--defined-only'] + list(v['objs']))
+    for l in r.stdout.decode().splitlines():
+        p = l.split()
+        if len(p) == 4 and p[2] in 'bBdD' and not p[3].startswith(('__', '.', 'asan.', '_')):
+            names.add(p[3])
+    out = []
+    r = sh(['nm', '-S', '--defined-only', exe])
+    for l in r.stdout.decode().splitlines():
+        p = l.split()
+        if len(p) == 4 and p[2] in 'bBdD' and p[3] in names:
+            out.append((p[3], int(p[0], 16), int(p[1], 16)))
+    out.sort()
+    # PIE executables are loaded at a fixed base when ASLR is off; the harness adds nothing, so use
+    # the run-time base: for non-randomised x86-64 PIE it is 0x555555554000.
+    pie = b'DYN' in sh(['readelf', '-h', exe]).stdout
+    base = 0x555555554000 if pie else 0
+    with open(path, 'w') as f:
+        for n, a, s in out:
+            f.write('%x %x %s\n' % (a + base, s, n))
+    return [n for n, _, _ in out]
